@@ -105,7 +105,9 @@ const map<E, bool> M2 = {E.A: 1, 2: false}
 const map<binary, i32> M3 = {"k": 1, "\x00": 2}
 const map<string, i32> M4 = inc.AGES
 const map<i32, map<i32, string>> M5 = {1: {2: "x"}, 3: {}}
-const map<bool, double> M6 = {true: 1, 0: 0.25}
+const map<bool, double> M6 = {true: 1}
+const map<bool, double> M6b = {0: 0.25}
+const map<bool, i32> M6c = {5: 1}
 const inc.Pt P1 = {"x": 9, "y": 8, "s": "zz", "bn": "raw", "l": [1, I2]}
 const inc.Pt P2 = inc.ORIGIN
 const MyPt P3 = {"c": 1}
